@@ -375,11 +375,13 @@ def _scale(terms, k):
     return terms
 
 
-def _gen_sum(rng, maxq, exact, hermitian=None, flavour=None):
+def _gen_sum(rng, maxq, exact, hermitian=None, flavour=None, nt=None):
     r = rng.random()
-    if r < 0.06:
+    if r < 0.06 and nt is None:
         return []
-    nt = rng.randrange(64, 72) if flavour == "long" else rng.choice([1, 1, 2, 3, 4, 6])
+    exact_count = nt is not None
+    if nt is None:
+        nt = rng.randrange(64, 72) if flavour == "long" else rng.choice([1, 1, 2, 3, 4, 6])
     terms = [_gen_term(rng, maxq, exact, flavour) for _ in range(nt)]
     if flavour == "uniform" and terms:
         for t in terms:
@@ -387,7 +389,7 @@ def _gen_sum(rng, maxq, exact, hermitian=None, flavour=None):
     if flavour == "span" and exact:
         for t in terms:  # magnitudes spanning eleven decades inside one operator
             _scale([t], rng.choice([-20, 0, 16]))
-    if rng.random() < 0.25 and terms:
+    if rng.random() < 0.25 and terms and not exact_count:
         # duplicate support (non-simplified sum); sometimes cancelling
         t = dict(rng.choice(terms))
         t = {"ops": list(reversed(t["ops"])), "c": list(t["c"]), "t": "c"}
@@ -1283,6 +1285,24 @@ def generate(rng, tier):
             if kind == "expect":
                 c.update(psi=_gen_psi(rng, w, "dyadic"), rev=rng.random() < 0.5)
             cases.append(c)
+
+    # ---- term-count ladder: the property has no bound on the number of terms, so the sizes cross the round numbers where a
+    # chunked / buffered / batched accumulation would sit (powers of two and of ten, each with its neighbours)
+    ladder = [64, 100, 128, 256, 512, 1000, 1024] + ([2048, 4096, 3072] if big else [])
+    sizes = ladder + [x + d for x in rng.sample(ladder, 4 if big else 2) for d in (-1, 1)]
+    for nt in sizes:
+        w = rng.choice([2, 3])
+        s = _gen_sum(rng, w, True, flavour="long", nt=nt)
+        kind = "sparse" if nt in ladder else rng.choice(["sparse", "expect", "reverse", "hc"])
+        c = {"kind": kind, "sum": s, "exact": True}
+        if kind in ("sparse", "reverse"):
+            c["n"] = rng.choice([None, w, w + 1])
+        if kind == "expect":
+            c.update(psi=_gen_psi(rng, w, "dyadic"), rev=rng.random() < 0.5)
+        cases.append(c)
+    # the Pauli expansion of a generic 2^n x 2^n matrix has 4^n terms: n = 5 is the first register whose expansion reaches 1024
+    if big:  # (16 s in the library alone)
+        cases.append({"kind": "from_matrix", "m": _gen_matrix(rng, 5, True, "dense"), "exact": True, "form": "ndarray"})
 
     # ---- dec2bin / bin2dec
     for _ in range(60 if big else 20):
